@@ -34,6 +34,9 @@ type Case struct {
 	Perms []Perm   `json:"perms,omitempty"`
 	Reqs  []Req    `json:"reqs"`
 	Note  string   `json:"note,omitempty"`
+	// Traffic: the requests served between two registrations (cases found
+	// on a mux registered under traffic)
+	Traffic []Req `json:"traffic,omitempty"`
 }
 
 func newReq() proto.Message { return vschema.NewMsg(reqDesc()) }
@@ -184,7 +187,7 @@ func checkC01(r *mon.Run, c *Case, prules []ParsedRule, rq Req, o Outcome) {
 }
 
 func oneReq(c *Case, rq Req) *Case {
-	return &Case{Prop: c.Prop, RS: c.RS, Perms: c.Perms, Reqs: []Req{rq}}
+	return &Case{Prop: c.Prop, RS: c.RS, Perms: c.Perms, Reqs: []Req{rq}, Traffic: c.Traffic, Note: c.Note}
 }
 
 type strictMatch struct {
@@ -415,6 +418,7 @@ func explore(r *mon.Run, prop string) {
 		c := &Case{Prop: prop, RS: rs, Perms: perms}
 		reqs := genRequests(rng, prules, perRule, prop == "C01")
 		c.Reqs = reqs
+		trafficBuilt := buildUnderTraffic(r, rs, perms[0], reqs)
 		if r.SampleN() < 4 && id%37 == 0 {
 			smp := *c
 			if len(smp.Reqs) > 6 {
@@ -423,6 +427,80 @@ func explore(r *mon.Run, prop string) {
 			r.Sample(smp)
 		}
 		runCase(r, c, prules, built)
+		if len(trafficBuilt) > 0 {
+			underTraffic(r, c, prules, trafficBuilt)
+		}
+	}
+}
+
+// buildUnderTraffic registers the services of a rule set one by one (in the
+// order of p, and in the reverse order of services) and serves the whole
+// request list between two registrations, so that anything a mux derives from
+// the requests it has served (resolved routes, negative results, per-path
+// state) is in place when the next service arrives. Rule sets with a single
+// service have no "between".
+func buildUnderTraffic(r *mon.Run, rs *RuleSet, p Perm, reqs []Req) []*Built {
+	if len(rs.Services) < 2 {
+		return nil
+	}
+	rev := Perm{Method: p.Method, Add: p.Add, Cfg: p.Cfg}
+	for i := len(p.Svc) - 1; i >= 0; i-- {
+		rev.Svc = append(rev.Svc, p.Svc[i])
+	}
+	var out []*Built
+	for _, q := range []Perm{p, rev} {
+		b, err := Prepare(rs, q)
+		if err != nil || b.RegPanic != nil {
+			return out
+		}
+		ok := true
+		for si, s := range q.Svc {
+			if rerr, pi := b.Register(s); rerr != nil || pi != nil {
+				// accepted without traffic (the caller built it), refused
+				// with: left to the order-independence part of C16
+				r.Count("registrations_under_traffic_refused", 1)
+				ok = false
+				break
+			}
+			if si == len(q.Svc)-1 {
+				break
+			}
+			for _, rq := range reqs {
+				b.Do(rq.Verb, rq.Path, "", nil)
+				r.Count("requests_served_between_registrations", 1)
+			}
+		}
+		if ok {
+			out = append(out, b)
+		}
+	}
+	return out
+}
+
+// underTraffic applies the property's own oracle to the muxes that served
+// requests between their registrations.
+func underTraffic(r *mon.Run, c0 *Case, prules []ParsedRule, built []*Built) {
+	cc := *c0
+	if cc.Traffic == nil {
+		cc.Traffic = c0.Reqs
+	}
+	cc.Note = "observed on a mux that served the traffic list between the registrations of its services"
+	c := &cc
+	for _, b := range built {
+		r.Count("muxes_registered_under_traffic", 1)
+		for _, rq := range c.Reqs {
+			o := b.Do(rq.Verb, rq.Path, "", nil)
+			nv := r.Violations()
+			switch c.Prop {
+			case "C01":
+				checkC01(r, c, prules, rq, o)
+			case "C02":
+				checkC02(r, c, prules, rq, o)
+			}
+			if r.Violations() > nv {
+				r.Count("violations_only_on_muxes_registered_under_traffic", 1)
+			}
+		}
 	}
 }
 
@@ -655,9 +733,9 @@ func oneLetterOK() bool {
 	return err == nil && b.RegErr == nil && b.RegPanic == nil
 }
 
-const ruleC01 = "generated rule sets (2-8 methods, 1-3 services, annotation/additional/service-config rules, literals from a colliding 7-word alphabet, *, ** (last), {f}, {f=lit/*}, {f=*/lit/*}, {f=lit/**}, nested field paths, typed variables, :verb, verbs GET/PUT/POST/DELETE/PATCH/custom/*) registered on a real Mux; requests = instantiations of every template, near-misses (segment dropped/added/substituted, verb suffix changed/removed/doubled, ':' inserted, slashes), wrong HTTP verb, invalid typed text, random paths. Every dispatch is checked against an independent permissive template matcher + protojson text conversion. distinct = (template shape, request class) of dispatches that captured at least one variable"
+const ruleC01 = "generated rule sets (2-8 methods, 1-3 services, annotation/additional/service-config rules, literals from a colliding 7-word alphabet, *, ** (last), {f}, {f=lit/*}, {f=*/lit/*}, {f=lit/**}, nested field paths, typed variables, :verb, verbs GET/PUT/POST/DELETE/PATCH/custom/*) registered on a real Mux; requests = instantiations of every template, near-misses (segment dropped/added/substituted, verb suffix changed/removed/doubled, ':' inserted, slashes), wrong HTTP verb, invalid typed text, random paths. Every dispatch is checked against an independent permissive template matcher + protojson text conversion. Typed variables cover every numeric kind incl. 32-bit floats (extremes, magnitudes between the float32 and float64 ranges, double-rounding midpoints) and the fixed / zig-zag integer kinds. Rule sets with several services are also registered service by service with the whole request list served between two registrations, and the same oracle is applied to those muxes. distinct = (template shape, request class) of dispatches that captured at least one variable"
 
-const ruleC02 = "same rule-set generator; each set registered in several orders (service order, method order, additional-binding order, config-rule order); requests = instantiations of every template (values over every documented path character class, single characters, unicode letters, words colliding with literals, multi-segment ** captures with verb). Oracles: strict reference matcher => must dispatch to an owner; literal-over-wildcard edge comparison; equal outcome across orders. distinct = shape of the most specific matching template (+competing flag) among requests with a wildcard/variable"
+const ruleC02 = "same rule-set generator; each set registered in several orders (service order, method order, additional-binding order, config-rule order); requests = instantiations of every template (values over every documented path character class, single characters, unicode letters, words colliding with literals, multi-segment ** captures with verb). Oracles: strict reference matcher => must dispatch to an owner; literal-over-wildcard edge comparison; equal outcome across orders; rule sets with several services are also registered service by service (in two service orders) with the whole request list served between two registrations, and completeness / precedence are checked on those muxes too. distinct = shape of the most specific matching template (+competing flag) among requests with a wildcard/variable"
 
 // RunC01 is the routing-soundness check.
 func RunC01(r *mon.Run) {
@@ -698,5 +776,9 @@ func Replay(r *mon.Run, raw json.RawMessage) {
 	}
 	r.Distinct("replay-a")
 	r.Distinct("replay-b")
+	if len(c.Traffic) > 0 {
+		underTraffic(r, &c, prules, buildUnderTraffic(r, c.RS, perms[0], c.Traffic))
+		return
+	}
 	runCase(r, &c, prules, built)
 }
